@@ -10,6 +10,7 @@ import Dmn.Lemmas.EvalSemInvoke
 import Dmn.Lemmas.EvalSemOps
 import Dmn.Lemmas.EvalSemMore
 import Dmn.Lemmas.EvalFree
+import Dmn.Lemmas.EvalBinders
 import Dmn.Gen.EvalSources
 
 /-!
@@ -1744,6 +1745,143 @@ example : namesIn (fun k => k == "a") (.add (.name "a") (.name "b")) = false ∧
     namesIn (fun k => k == "a") (.path (.name "a") (.name "b")) = true ∧
     namesIn (fun k => k == "a") (.qualifiedName [.qualifiedNameSegment "a", .qualifiedNameSegment "b"]) = true := by
   decide
+
+end Dmn.Eval
+
+/-!
+## Binders: the names an expression binds itself need not be bound alike
+
+`eval_depends_on_free_names` asks the two scopes to agree on every name that is looked up, the names the
+expression binds itself included.  The theorems below are the binder rules of the sharper statement (over the
+syntactically free names), one per binding construct, each for ALL bodies and ALL scopes: what is evaluated
+between `push c` and `pop` may look up the keys of `c` whatever the scopes bind under them
+(`bracket_binds_keys`); the body of a `for` may look up its variables and `partial`
+(`for_binds_its_variables`), the satisfies-expression of a `some` / `every` its variables
+(`quantified_binds_its_variables`).  (Not yet assembled into one induction over all trees: the guard on
+function bodies of `evalG` would have to move with the binders as well.)
+-/
+
+namespace Dmn.Eval
+open EvalM Value
+
+/-- **Whatever is evaluated inside a pushed context may look up that context's keys**: if the tree looks up
+only names in `G` or keys of `c`, two scopes that agree on `G` — and bind the keys of `c` in any way, or not at
+all — give `push c; evaluate; pop` the same outcome.  (`c`: the iteration context of a `for` / `some` / `every`,
+the argument context of an invocation, the item context of a filter, the entries so far of a context literal.) -/
+theorem bracket_binds_keys (G : String → Bool) (env : Env) (c : Ctx)
+    (hc : ∀ b, SameOnAgree (withKeys G c) (env.call b) (env.call b))
+    (a : Ast) (hn : namesIn (withKeys G c) a = true) (s₁ s₂ : Scope) (h : AgreeOn G s₁ s₂) :
+    (bracket c (evalStep env a) s₁).map Prod.fst = (bracket c (evalStep env a) s₂).map Prod.fst := by
+  have hr := g_evalStep (freeRel (withKeys G c)) env env.call hc a hn
+  rw [withCall_self] at hr
+  exact (sameOnAgree_bracket_binds c hr).2.2 s₁ s₂ h
+
+/-- non-vacuity: the body `x` under the pushed context `{x: true}`, in two scopes that bind `x` differently
+and agree on nothing. -/
+example (env : Env) (hc : ∀ b, SameOnAgree (withKeys (fun _ => false) [("x", .bool true)]) (env.call b) (env.call b)) :
+    (bracket [("x", .bool true)] (evalStep env (.name "x")) [[("x", .null)]]).map Prod.fst =
+      (bracket [("x", .bool true)] (evalStep env (.name "x")) [[("x", .bool false)], []]).map Prod.fst :=
+  bracket_binds_keys (fun _ => false) env _ hc _ (by decide) _ _ (fun _ hk => by simp at hk)
+
+/-- **A `for` binds its variables and `partial`**: the domains look up names in `G`, the body names in `G`, the
+iteration variables `V` and `partial`; two scopes that agree on `G` give the same outcome, whatever they bind
+under the variables' names and under `partial`.  `hiter`: every context the iteration engine hands out binds
+every variable (`run_eq_product`: the contexts are the tuples of `Iter.product`). -/
+theorem for_binds_its_variables (G V : String → Bool) (env : Env)
+    (hc : ∀ b, SameOnAgree G (env.call b) (env.call b))
+    (items : List Ast) (body : Ast)
+    (hd : namesInIteration G items = true)
+    (hb : namesIn (fun k => G k || V k || k == "partial") body = true)
+    (hiter : ∀ sts cs, env.iter sts = .ok cs → ∀ c ∈ cs, ∀ k, V k = true → (Ctx.get c k).isSome = true)
+    (s₁ s₂ : Scope) (h : AgreeOn G s₁ s₂) :
+    (evalStep env (.for (.iterationContexts items) body) s₁).map Prod.fst =
+      (evalStep env (.for (.iterationContexts items) body) s₂).map Prod.fst := by
+  have hG' : ∀ k, G k = true → (fun k => G k || V k || k == "partial") k = true := by
+    intro k hk; simp [hk]
+  have hbody := g_evalStep (freeRel _) env env.call (fun b => sameOnAgree_mono hG' (hc b)) body hb
+  rw [withCall_self] at hbody
+  have hdom := g_evalIteration (freeRel G) env env.call hc items 0 hd
+  rw [withCall_self] at hdom
+  have hall : SameOnAgree G (evalStep env (.for (.iterationContexts items) body))
+      (evalStep env (.for (.iterationContexts items) body)) := by
+    simp only [evalStep]
+    refine sameOnAgree_bind hdom (fun states => ?_)
+    split
+    · exact ⟨pres_pure _, pres_pure _, fun _ _ _ => rfl⟩
+    · exact ⟨pres_pure _, pres_pure _, fun _ _ _ => rfl⟩
+    · rename_i sts
+      refine sameOnAgree_lift_bind (env.iter sts) (fun cs hi => ?_)
+      exact sameOnAgree_bind (forLoop_binds V hbody cs (hiter sts cs hi) [])
+        (fun _ => ⟨pres_pure _, pres_pure _, fun _ _ _ => rfl⟩)
+  exact hall.2.2 s₁ s₂ h
+
+/-- **A `some` / `every` binds its variables**: the domains look up names in `G`, the satisfies-expression
+names in `G` and the quantified variables `V`; two scopes that agree on `G` give the same outcome, whatever
+they bind under the variables' names. -/
+theorem quantified_binds_its_variables (G V : String → Bool) (env : Env)
+    (hc : ∀ b, SameOnAgree G (env.call b) (env.call b))
+    (items : List Ast) (sat : Ast) (isSome : Bool)
+    (hd : namesInQuantified G items = true)
+    (hb : namesIn (fun k => G k || V k) sat = true)
+    (hiter : ∀ sts cs, env.iter sts = .ok cs → ∀ c ∈ cs, ∀ k, V k = true → (Ctx.get c k).isSome = true)
+    (s₁ s₂ : Scope) (h : AgreeOn G s₁ s₂) :
+    let e : Ast := if isSome then .some (.quantifiedContexts items) (.satisfies sat)
+      else .every (.quantifiedContexts items) (.satisfies sat)
+    (evalStep env e s₁).map Prod.fst = (evalStep env e s₂).map Prod.fst := by
+  have hG' : ∀ k, G k = true → (fun k => G k || V k) k = true := by
+    intro k hk; simp [hk]
+  have hsat := g_evalStep (freeRel _) env env.call (fun b => sameOnAgree_mono hG' (hc b)) sat hb
+  rw [withCall_self] at hsat
+  have hdom := g_evalQuantified (freeRel G) env env.call hc items 0 hd
+  rw [withCall_self] at hdom
+  intro e
+  have hall : SameOnAgree G (evalStep env e) (evalStep env e) := by
+    cases isSome
+    · simp only [e, Bool.false_eq_true, if_false, evalStep]
+      refine sameOnAgree_bind hdom (fun states => ?_)
+      split
+      · exact ⟨pres_pure _, pres_pure _, fun _ _ _ => rfl⟩
+      · exact ⟨pres_pure _, pres_pure _, fun _ _ _ => rfl⟩
+      · rename_i sts
+        refine sameOnAgree_lift_bind (env.iter sts) (fun cs hi => ?_)
+        exact sameOnAgree_bind (quantLoop_binds V hsat false cs (hiter sts cs hi) _)
+          (fun _ => ⟨pres_pure _, pres_pure _, fun _ _ _ => rfl⟩)
+    · simp only [e, if_true, evalStep]
+      refine sameOnAgree_bind hdom (fun states => ?_)
+      split
+      · exact ⟨pres_pure _, pres_pure _, fun _ _ _ => rfl⟩
+      · exact ⟨pres_pure _, pres_pure _, fun _ _ _ => rfl⟩
+      · rename_i sts
+        refine sameOnAgree_lift_bind (env.iter sts) (fun cs hi => ?_)
+        exact sameOnAgree_bind (quantLoop_binds V hsat true cs (hiter sts cs hi) _)
+          (fun _ => ⟨pres_pure _, pres_pure _, fun _ _ _ => rfl⟩)
+  exact hall.2.2 s₁ s₂ h
+
+/-- non-vacuity of `for_binds_its_variables` and `quantified_binds_its_variables`: `for x in d return x` and
+`some x in d satisfies x` in two scopes that agree on `d` and bind `x` differently. -/
+example :
+    (evalStep binderWitnessEnv (.for (.iterationContexts [.iterationContextSingle (.name "x") (.name "d")]) (.name "x"))
+        [[("d", .null), ("x", .null)]]).map Prod.fst =
+    (evalStep binderWitnessEnv (.for (.iterationContexts [.iterationContextSingle (.name "x") (.name "d")]) (.name "x"))
+        [[("x", .bool false)], [("d", .null)]]).map Prod.fst := by
+  apply for_binds_its_variables (fun k => k == "d") (fun k => k == "x") binderWitnessEnv
+    (fun _ => ⟨pres_diverge, pres_diverge, fun _ _ _ => rfl⟩) _ _ (by decide) (by decide) binderWitness_iter
+  intro k hk
+  have : k = "d" := by simpa using hk
+  subst this
+  simp [Scope.getEntry, Ctx.get]
+
+example :
+    (evalStep binderWitnessEnv (.some (.quantifiedContexts [.quantifiedContext (.name "x") (.name "d")]) (.satisfies (.name "x")))
+        [[("d", .null), ("x", .null)]]).map Prod.fst =
+    (evalStep binderWitnessEnv (.some (.quantifiedContexts [.quantifiedContext (.name "x") (.name "d")]) (.satisfies (.name "x")))
+        [[("x", .bool false)], [("d", .null)]]).map Prod.fst := by
+  apply quantified_binds_its_variables (fun k => k == "d") (fun k => k == "x") binderWitnessEnv
+    (fun _ => ⟨pres_diverge, pres_diverge, fun _ _ _ => rfl⟩) _ _ true (by decide) (by decide) binderWitness_iter
+  intro k hk
+  have : k = "d" := by simpa using hk
+  subst this
+  simp [Scope.getEntry, Ctx.get]
 
 end Dmn.Eval
 
